@@ -414,6 +414,9 @@ func (env *Env) sel(e *Expr) SV {
 	if env.err != nil {
 		return SV{T: True}
 	}
+	if base.T == nil {
+		return SV{T: nil, Ty: nil} // a field of an unknown call record is unknown
+	}
 	if base.Ty == nil {
 		return env.fail("field %s of untyped value", e.Name)
 	}
@@ -500,6 +503,12 @@ func (env *Env) index(e *Expr) SV {
 	case *types.Map:
 		_, vk := mapKeys(base.Ty)
 		return SV{T: Select(Select(env.st.heapArr(vk, heapSorts[vk]), base.T), idx.T), Ty: u.Elem()}
+	case *types.Pointer:
+		// p[i] for a pointer to an array: the element region row of the object p refers to
+		if at, ok := u.Elem().Underlying().(*types.Array); ok {
+			k := env.x.elemKey(at.Elem())
+			return SV{T: Select(Select(env.st.heapArr(k, heapSorts[k]), base.T), idx.T), Ty: at.Elem()}
+		}
 	}
 	return env.fail("cannot index %s", base.Ty)
 }
@@ -865,7 +874,7 @@ func (env *Env) call(e *Expr) SV {
 		n, _ := strconv.Atoi(e.Args[1].Lit)
 		k := env.ghostKey(fmt.Sprintf("#ret$%s$%d", e.Args[0].Lit, n))
 		if t, ok := st.ghost[k]; ok {
-			return SV{T: t}
+			return SV{T: t, Ty: x.argTypes[k]}
 		}
 		return SV{T: nil, Ty: nil}
 	case "typeof":
@@ -878,6 +887,9 @@ func (env *Env) call(e *Expr) SV {
 		t := env.lookupType(e.Args[1].Lit)
 		if t == nil {
 			return env.fail("unknown type %s", e.Args[1].Lit)
+		}
+		if arg(0).T == nil {
+			return SV{T: x.freshVar("norecord", SBool), Ty: bt} // about an unknown call record: unconstrained
 		}
 		if a := arg(0); a.Ty != nil {
 			if it, isI := a.Ty.Underlying().(*types.Interface); isI {
